@@ -348,12 +348,10 @@ func (i *iteratorRole) IsEnabled() bool {
 	if i == nil || i.template == nil {
 		return false
 	}
-	if i.template.IsEnabled() {
-		return true
-	}
 	// The template itself is never processed, only its copies are: if its enabled field is an expression
 	// (e.g. one which depends on the iterator variable), it is the generated roles which tell whether anything
-	// is enabled here. ProcessTemplates has already dropped the disabled ones.
+	// is enabled here. ProcessTemplates has already dropped the disabled ones. An iterator which generated
+	// nothing (empty range) has nothing enabled either, so that its parent can disappear if left empty.
 	return len(i.Roles) > 0
 }
 
